@@ -15,3 +15,17 @@ check("C08", "exploration", "runtime differential monitor: idr tree vs standard-
       "DOM built from the standard decoder's tokens in element order, names, prefixes, URIs, attributes and character data.",
       "Trusted: encoding/json, encoding/xml. No duplicate JSON keys; one prefix per namespace URI.",
       "DESIGN.md section 3 C08")
+
+HOOK_COMMITS.append("a527d01")
+
+check("C11", "exploration", "runtime differential monitor: idr.MatchAll vs antchfx/xmlquery navigator on a harness-built DOM, same xpath engine",
+      "Held on every generated (document, expression, context) triple (quick 8e4, thorough 4e6 queries): same nodes, order and string-values as the "
+      "reference DOM binding for all axes, node tests, positional/string predicates, functions and unions, from the root and from inner nodes.",
+      "Trusted: antchfx/xpath engine; xmlquery navigator with one documented correction (document-node string-value per XPath 1.0 5.1).",
+      "DESIGN.md section 3 C11")
+
+check("C12", "exploration", "runtime invariant monitor: abstract tree model in lock-step + structural audit at every quiescent point + Go race detector on racing acquisitions",
+      "Held on every operation of every generated history (quick 2e6 ops / 5e5 audits; thorough ~40x), on every record tree of all seven readers, and on "
+      "G in {2,4,16,64} goroutines x GOMAXPROCS in {1,2,4,16} racing on the shared pool and ID counter with zero race reports and pairwise distinct IDs.",
+      "Harness owns its nodes via the public idr API. The race detector sees only interleavings that occurred.",
+      "DESIGN.md section 3 C12")
